@@ -518,3 +518,38 @@ Definition c20_float_violations (cases : list float_case) : list Z :=
                         negb ((0 <? d) &&
                               ((u - 1) * (u - 1) * (a * k) * d <=? u * u * n * b) &&
                               (u * u * n * b <=? (u + 1) * (u + 1) * (a * k) * d))) cases.
+
+(* stream "sixel": the same histories with Sixel images (sixel graphics advertised).  A sixel
+   placement has no identifier on the wire and its deleteFn writes nothing, so an observed event
+   is (1, 0, col, row) for "CUP row+1;col+1 followed by a sixel DCS string"; deletions are not
+   observable.  Sixel.Draw also marks the image's cells: [marked] is the number of screen cells
+   carrying the sixel flag after the frame's draws that lie outside the union of the drawn
+   rectangles plus the number of rectangle cells that lack it (must be 0). *)
+Definition sixel_key (e : gevent) : list rawev :=
+  match e with
+  | GDelete _ => []
+  | GWrite p => [(1, 0, p_col p, p_row p)]
+  end.
+
+Definition c20_sixel_mismatches (cases : list placement_case) : list Z :=
+  bad_indices (fun c => let '(rops, frames) := c in
+                        let ops := map mk_op rops in
+                        negb (list_eqb (list_eqb rawev_eqb)
+                                (map (flat_map sixel_key) (run_ops g_init ops))
+                                (map (fun f : rawframe => snd f) frames) &&
+                              list_eqb (list_eqb same_placement)
+                                (next_at_renders [] ops)
+                                (map (fun f : rawframe => map mk_p (snd (fst f))) frames))) cases.
+
+Definition frame_sixel_ok (refresh : bool) (prev cur : list placement) (ev : list rawev) : bool :=
+  list_eqb rawev_eqb ev
+    (flat_map sixel_key (map GWrite (filter (fun p => refresh || negb (mem_p p prev)) cur))).
+
+Fixpoint frames_sixel_ok (prev : list placement) (frames : list rawframe) : bool :=
+  match frames with
+  | [] => true
+  | (r, cur, ev) :: t => frame_sixel_ok (negb (r =? 0)) prev (map mk_p cur) ev && frames_sixel_ok (map mk_p cur) t
+  end.
+
+Definition c20_sixel_violations (cases : list placement_case) : list Z :=
+  bad_indices (fun c => negb (frames_sixel_ok [] (snd c))) cases.
